@@ -46,7 +46,7 @@ let run (t : tree) (addr : z list) (tys : z list) (withloc : bool) : string =
   let st = dispatch t addr tys withloc (z_of_int 1) in
   let evs = List.rev_map (show_event (List.length addr)) st.log in
   let body = if evs = [] then "-" else String.concat ";" evs in
-  let s = Printf.sprintf "%s m=%d" body (int_of_z st.matches) in
+  let s = Printf.sprintf "%s m=%d obj=%s" body (int_of_z st.matches) (z_to_string st.obj) in
   if withloc then s ^ " loc=" ^ lochex st.loc else s
 
 let rec walk (t : tree) (f : table -> unit) =
